@@ -1,0 +1,15 @@
+//go:build verif
+
+package destination
+
+// VerifSetKeepSafeCap sets the initial capacity of the two slices every new
+// connection's keepSafe buffer pre-allocates (default 100000 entries each,
+// re-allocated every keepsafe_keep_duration) and returns the previous value.
+// Only the pre-allocation changes; the buffers grow on demand as before.
+// The verification harness creates thousands of short-lived connections per
+// process and lowers it to keep their footprint small (build tag verif).
+func VerifSetKeepSafeCap(n int) int {
+	old := keepsafe_initial_cap
+	keepsafe_initial_cap = n
+	return old
+}
